@@ -416,6 +416,8 @@ class Ombott:
             environ['wsgi.errors'].write(err)
             headers = [('Content-Type', 'text/html; charset=UTF-8')]
             start_response('500 INTERNAL SERVER ERROR', headers, sys.exc_info())
+            if environ.get('REQUEST_METHOD') == 'HEAD':
+                return []
             return [tob(err)]
 
     def __call__(self, environ, start_response):
